@@ -264,7 +264,7 @@ fn run(ctx: &mut Ctx) {
         if let Some((sig, detail)) = run_point(ctx, &p) {
             ctx.rep.violation(&sig, detail, json!({"prop":"C06","stack":s,"env":e,"len":l,"opt":o}));
         }
-        if job % 13 == 1 {
+        if job % 13 == 1 || ctx.rep.samples.is_empty() {
             ctx.rep.sample(json!({"stack": p.stack.0, "env": p.env, "arg_length": p.len, "option": p.opt}));
         }
         ctx.rep.traces_validated += 1;
